@@ -15,8 +15,8 @@ def set_query_container(rng, op, qs, dt, field="q_dtype"):
     cands = [d for d in KEY_DTYPES
              if all(int(np.iinfo(d).min) <= x <= int(np.iinfo(d).max) for x in qs)]
     r = rng.random()
-    if r < 0.25 and n > 0 and fits64:
-        op["as_list"] = True
+    if r < 0.25 and fits64:
+        op["as_list"] = True                  # (also an empty Python list)
     elif r < 0.5 and dt in cands:
         op[field] = dt
     elif r < 0.75 and "int64" in cands:
@@ -265,8 +265,7 @@ class Hist:
 
     def qform(self, h, op):
         """Container of a vector query: a Python list, an array of the key dtype, an int64 array (numpy's
-        default for integers) or - for non-negative queries - a uint64 array, whatever the key dtype.
-        Empty queries are always typed arrays (an empty Python list has no integer dtype)."""
+        default for integers) or any other integer dtype that holds the values, whatever the key dtype."""
         rng = self.rng
         dt = self.info[h]["dt"]
         qs = op.get("keys", op.get("batch", []))
